@@ -43,24 +43,26 @@ Definition order_def (a n : Z) : Z :=                               (* 0 for a n
   if Z.gcd (a mod n) n =? 1 then ord_iter (Z.to_nat n) (a mod n) n (a mod n) 1 else 0.
 Fixpoint least_from (fuel : nat) (P : Z -> bool) (z : Z) : Z :=      (* least z' >= z with P z' (within fuel), else 0 *)
   match fuel with O => 0 | S f => if P z then z else least_from f P (z + 1) end.
+Fixpoint allb (P : Z -> bool) (l : list Z) : bool :=                (* forallb, lazy in the tail (vm_compute is strict in &&) *)
+  match l with [] => true | x :: tl => if P x then allb P tl else false end.
 Definition exponent_def (n : Z) : Z :=                              (* least e >= 1 with u^e = 1 for every unit u *)
   let us := units n in
-  least_from (Z.to_nat n) (fun e => forallb (fun u => powmod u e n =? 1 mod n) us) 1.
+  least_from (Z.to_nat n) (fun e => allb (fun u => powmod u e n =? 1 mod n) us) 1.
 Definition squares_mod (n : Z) : list Z := map (fun x => (x * x) mod n) (zrange 0 (n - 1)).
 Definition is_square_in (sq : list Z) (a n : Z) : bool := existsb (Z.eqb (a mod n)) sq.
 Definition is_square_mod (a n : Z) : bool := is_square_in (squares_mod n) a n.       (* exists x, x*x = a (mod n) *)
 Definition draws80 : list Z := zrange 1 80.
 
-(* --- phi = number of units,  n <= 400 *)
+(* --- phi = number of units,  n <= 800 *)
 Definition phi_ok (n : Z) : bool := phi n (primes_of n) =? count_units n.
-Definition Phi_count_stmt := forall n, 1 <= n <= 400 -> phi n (primes_of n) = count_units n.
+Definition Phi_count_stmt := forall n, 1 <= n <= 800 -> phi n (primes_of n) = count_units n.
 Lemma phi_count_sweep : Phi_count_stmt.
 Proof. intros n Hn. apply Z.eqb_eq. revert n Hn. apply (sweep phi_ok). vm_cast_no_check (eq_refl true). Qed.
 
-(* --- lambda_inv = exponent of the unit group, lambda = the same except lambda(8) = 3,  2 <= m <= 150 *)
+(* --- lambda_inv = exponent of the unit group, lambda = the same except lambda(8) = 3,  2 <= m <= 200 *)
 Definition lambda_ok (m : Z) : bool :=
   (lambda_inv m (factors m) =? exponent_def m) && (lambda m (factors m) =? if m =? 8 then 3 else exponent_def m).
-Definition Lambda_exponent_stmt := forall m, 2 <= m <= 150 ->
+Definition Lambda_exponent_stmt := forall m, 2 <= m <= 200 ->
   lambda_inv m (factors m) = exponent_def m /\ lambda m (factors m) = if m =? 8 then 3 else exponent_def m.
 Lemma lambda_exponent_sweep : Lambda_exponent_stmt.
 Proof.
@@ -68,19 +70,19 @@ Proof.
   apply andb_true_iff in H. destruct H as [H1 H2]. split; apply Z.eqb_eq; assumption.
 Qed.
 
-(* --- order = least exponent, is_prim_root <-> order = phi,  2 <= n <= 90, every a in [-1, n+1] *)
+(* --- order = least exponent, is_prim_root <-> order = phi,  2 <= n <= 120, every a in [-1, n+1] *)
 Definition order_ok (n : Z) : bool :=
   let Ln := primes_of n in let Lphi := primes_of (phi n Ln) in
   forallb (fun a => (order a n Ln Lphi =? (if a mod n =? 0 then 0 else order_def a n))
                     && Bool.eqb (is_prim_root a n Ln Lphi) ((Z.gcd (a mod n) n =? 1) && (order_def a n =? phi n Ln)))
           (zrange (-1) (n + 1)).
-Definition Order_least_stmt := forall n a, 2 <= n <= 90 -> -1 <= a <= n + 1 ->
+Definition Order_least_stmt := forall n a, 2 <= n <= 120 -> -1 <= a <= n + 1 ->
   let Ln := primes_of n in let Lphi := primes_of (phi n Ln) in
   order a n Ln Lphi = (if a mod n =? 0 then 0 else order_def a n) /\
   is_prim_root a n Ln Lphi = ((Z.gcd (a mod n) n =? 1) && (order_def a n =? phi n Ln)).
 Lemma order_least_sweep : Order_least_stmt.
 Proof.
-  intros n a Hn Ha. assert (H : order_ok n = true) by (revert n Hn; apply (sweep order_ok); vm_cast_no_check (eq_refl true)).
+  intros n a Hn Ha. assert (H : order_ok n = true) by (clear - Hn; revert n Hn; apply (sweep order_ok); vm_cast_no_check (eq_refl true)).
   unfold order_ok in H. rewrite forallb_forall in H. specialize (H a (zrange_In _ _ _ Ha)).
   apply andb_true_iff in H. destruct H as [H1 H2]. split; [apply Z.eqb_eq, H1 | apply Bool.eqb_prop, H2].
 Qed.
@@ -92,8 +94,9 @@ Definition root_ok (sq : list Z) (a n : Z) (r : option Z) : bool :=
   | Some x => if is_square_in sq a n then negb (x =? -1) && ((x * x - a) mod n =? 0) else x =? -1
   end.
 Definition sqrtp_ok (p : Z) : bool :=
-  negb (is_primeb p) ||
-  (let sq := squares_mod p in forallb (fun a => root_ok sq a p (sqrootmodprime a p draws80)) (zrange (-2) (p + 2))).
+  if is_primeb p
+  then (let sq := squares_mod p in forallb (fun a => root_ok sq a p (sqrootmodprime a p draws80)) (zrange (-2) (p + 2)))
+  else true.
 Definition Root_spec (a n : Z) (r : option Z) : Prop :=
   exists x, r = Some x /\ (if is_square_mod a n then x <> -1 /\ (x * x - a) mod n = 0 else x = -1).
 Lemma root_ok_spec a n r : root_ok (squares_mod n) a n r = true -> Root_spec a n r.
@@ -108,39 +111,40 @@ Definition Sqrootmodprime_sweep_stmt := forall p a, 2 <= p <= 200 -> is_primeb p
 Lemma sqrootmodprime_sweep : Sqrootmodprime_sweep_stmt.
 Proof.
   intros p a Hp Hpr Ha. assert (H : sqrtp_ok p = true) by (clear - Hp; revert p Hp; apply (sweep sqrtp_ok); vm_cast_no_check (eq_refl true)).
-  unfold sqrtp_ok in H. rewrite Hpr in H. cbn [negb orb] in H. cbv zeta in H. rewrite forallb_forall in H.
+  unfold sqrtp_ok in H. rewrite Hpr in H. cbv zeta in H. rewrite forallb_forall in H.
   apply root_ok_spec. apply H, zrange_In, Ha.
 Qed.
 
-(* --- sqrootmodprimepower / sqrootmodpoweroftwo, end to end: every prime power p^k <= 400 with k >= 2, every a in [-2, p^k+1] *)
+(* --- sqrootmodprimepower / sqrootmodpoweroftwo, end to end: every prime power p^k <= 1000 with k >= 2, every a in [-2, p^k+1] *)
 Definition sqrt_pk (a p k : Z) : option Z :=
   if p =? 2 then Some (sqrootmodpoweroftwo (pow2_fuel k) a k (p ^ k)) else sqrootmodprimepower (pow2_fuel k) a p k (p ^ k) draws80.
 Definition sqrtpk_case (p k : Z) : bool :=
   let sq := squares_mod (p ^ k) in forallb (fun a => root_ok sq a (p ^ k) (sqrt_pk a p k)) (zrange (-2) (p ^ k + 1)).
 Definition sqrtpk_ok (p : Z) : bool :=
-  negb (is_primeb p) || forallb (fun k => (400 <? p ^ k) || sqrtpk_case p k) (zrange 2 8).
-Definition Sqrootmodprimepower_sweep_stmt := forall p k a, 2 <= p <= 19 -> is_primeb p = true -> 2 <= k <= 8 -> p ^ k <= 400 ->
+  if is_primeb p then forallb (fun k => if 1000 <? p ^ k then true else sqrtpk_case p k) (zrange 2 9) else true.
+Definition Sqrootmodprimepower_sweep_stmt := forall p k a, 2 <= p <= 31 -> is_primeb p = true -> 2 <= k <= 9 -> p ^ k <= 1000 ->
   -2 <= a <= p ^ k + 1 -> Root_spec a (p ^ k) (sqrt_pk a p k).
 Lemma sqrootmodprimepower_sweep : Sqrootmodprimepower_sweep_stmt.
 Proof.
   intros p k a Hp Hpr Hk Hpk Ha.
   assert (H : sqrtpk_ok p = true) by (clear - Hp; revert p Hp; apply (sweep sqrtpk_ok); vm_cast_no_check (eq_refl true)).
-  unfold sqrtpk_ok in H. rewrite Hpr in H. cbn [negb orb] in H. rewrite forallb_forall in H. specialize (H k (zrange_In _ _ _ Hk)).
-  apply orb_true_iff in H. destruct H as [H|H]; [apply Z.ltb_lt in H; lia|].
+  unfold sqrtpk_ok in H. rewrite Hpr in H. rewrite forallb_forall in H. specialize (H k (zrange_In _ _ _ Hk)).
+  destruct (Z.ltb_spec 1000 (p ^ k)) as [Hgt|_]; [lia|].
   unfold sqrtpk_case in H. cbv zeta in H. rewrite forallb_forall in H.
   apply root_ok_spec. apply H, zrange_In, Ha.
 Qed.
 
 (* --- Brillhart: every prime p = 1 (mod 4), p <= 2000 *)
 Definition brill_ok (p : Z) : bool :=
-  negb (is_primeb p && (p mod 4 =? 1)) ||
-  match brillhart p draws80 with Some (a, b) => a * a + b * b =? p | None => false end.
+  if is_primeb p && (p mod 4 =? 1)
+  then match brillhart p draws80 with Some (a, b) => a * a + b * b =? p | None => false end
+  else true.
 Definition Brillhart_sweep_stmt := forall p, 2 <= p <= 2000 -> is_primeb p = true -> p mod 4 = 1 ->
   exists a b, brillhart p draws80 = Some (a, b) /\ a * a + b * b = p.
 Lemma brillhart_sweep : Brillhart_sweep_stmt.
 Proof.
   intros p Hp Hpr H4. assert (H : brill_ok p = true) by (clear - Hp; revert p Hp; apply (sweep brill_ok); vm_cast_no_check (eq_refl true)).
-  unfold brill_ok in H. rewrite Hpr, H4 in H. cbn in H.
+  unfold brill_ok in H. rewrite Hpr in H. replace (p mod 4 =? 1) with true in H by (symmetry; apply Z.eqb_eq; exact H4). cbn [andb] in H.
   destruct (brillhart p draws80) as [[a b]|]; [|discriminate]. exists a, b. split; [reflexivity | apply Z.eqb_eq, H].
 Qed.
 
@@ -156,3 +160,27 @@ Proof.
   apply andb_true_iff in H. destruct H as [H H3]. apply andb_true_iff in H. destruct H as [H1 H2].
   apply Z.leb_le in H1, H2. apply Z.ltb_lt in H3. lia.
 Qed.
+
+(* ------------------------------------------------------------------------------------------------------------------
+   FULL statements of which the sweeps above are the bounded (`_partial`) versions.  They are NOT proved here; they are
+   kept visible so that the gap is explicit (DESIGN 5/C13: claimed partial). *)
+From Coq Require Import Znumtheory.
+Definition Phi_count_full_stmt := forall n, 1 <= n -> phi n (primes_of n) = count_units n.
+Definition Lambda_exponent_full_stmt := forall m, 2 <= m ->
+  lambda_inv m (factors m) = exponent_def m /\ lambda m (factors m) = if m =? 8 then 3 else exponent_def m.
+Definition Order_least_full_stmt := forall n a, 2 <= n ->
+  let Ln := primes_of n in let Lphi := primes_of (phi n Ln) in
+  order a n Ln Lphi = (if a mod n =? 0 then 0 else order_def a n).
+(* completeness of sqrootmodprime (the Tonelli-Shanks loop never reports a residue as -1 and its fuel suffices) and
+   the whole-function behaviour of the prime-power functions, for all primes *)
+Definition Sqrootmodprime_full_stmt := forall p a draws, prime p ->
+  (exists g, In g draws /\ legendre g p = -1) -> Forall (fun d => 0 < d < p) draws ->
+  Root_spec a p (sqrootmodprime a p draws).
+Definition Sqrootmodprimepower_full_stmt := forall p k a draws, prime p -> 1 <= k ->
+  (exists g, In g draws /\ legendre g p = -1) -> Forall (fun d => 0 < d < p) draws ->
+  Root_spec a (p ^ k) (if p =? 2 then Some (sqrootmodpoweroftwo (pow2_fuel k) a k (p ^ k))
+                       else sqrootmodprimepower (pow2_fuel k) a p k (p ^ k) draws).
+Definition Brillhart_full_stmt := forall p draws, prime p -> p mod 4 = 1 ->
+  (exists g, In g draws /\ legendre g p = -1) -> Forall (fun d => 0 < d < p) draws ->
+  exists a b, brillhart p draws = Some (a, b) /\ a * a + b * b = p.
+Definition Logp_full_stmt := forall p a, 2 <= p -> p <= a -> 0 <= logp a p /\ p ^ logp a p <= a < p ^ (logp a p + 1).
